@@ -215,7 +215,7 @@ impl Stream for Invalid
 		let ints = ["i8", "i16", "i32", "i64", "i128", "u8", "u16", "u32", "u64", "u128", "usize"];
 		let t = *c.pick(&ints);
 		let pre = format!(
-			"word32 Wd\n{{\n\tlo: i16,\n\thi: i16,\n}}\n\nstruct Inner\n{{\n\tv: {t},\n\tw: Wd,\n}}\n\nstruct Outer\n{{\n\tinner: Inner,\n\titems: [2]{t},\n\tn: {t},\n}}\n\nconst K: {t} = 1;\n\nconst KA: [2]{t} = [1, 2];\n\nfn sink_ptr(p: &{t})\n{{\n\tp = p;\n}}\n\nfn sink_slice(a: &[]{t})\n{{\n\ta[0] = a[0];\n}}\n\nfn sink_struct(s: &Outer)\n{{\n\ts.n = s.n;\n}}\n\nfn sink_inner(s: &Inner)\n{{\n\ts.v = s.v;\n}}\n\n"
+			"word32 Wd\n{{\n\tlo: i16,\n\thi: i16,\n}}\n\nstruct Inner\n{{\n\tv: {t},\n\tw: Wd,\n}}\n\nstruct Outer\n{{\n\tinner: Inner,\n\titems: [2]{t},\n\tn: {t},\n}}\n\nconst K: {t} = 1;\n\nconst KA: [2]{t} = [1, 2];\n\nfn sink_ptr(p: &{t})\n{{\n\tp = p;\n}}\n\nfn sink_slice(a: &[]{t})\n{{\n\ta[0] = a[0];\n}}\n\nfn sink_struct(s: &Outer)\n{{\n\ts.n = s.n;\n}}\n\nfn sink_inner(s: &Inner)\n{{\n\ts.v = s.v;\n}}\n\nfn idt(v: {t}) -> {t}\n{{\n\treturn: v\n}}\n\n"
 		);
 		let mk_outer = "Outer { inner: Inner { v: 1, w: Wd { lo: 1, hi: 2 } }, items: [1, 2], n: 3 }";
 		// (function text, expected codes)
@@ -247,6 +247,17 @@ impl Stream for Invalid
 			(format!("fn bad()\n{{\n\tvar s = {mk_outer};\n\tsink_struct(s);\n}}"), &[513]),
 			(format!("fn bad()\n{{\n\tvar s = {mk_outer};\n\tsink_inner(s.inner);\n}}"), &[513]),
 			(format!("fn bad()\n{{\n\tvar s = {mk_outer};\n\tsink_ptr(s.n);\n}}"), &[513]),
+			// `&` of an array that cannot be mutated, coerced to a slice pointer
+			("fn bad(s: Outer)\n{\n\tsink_slice(&s.items);\n}".to_string(), &[530]),
+			("fn bad()\n{\n\tsink_slice(&KA);\n}".to_string(), &[530]),
+			(format!("fn bad(a: []{t})\n{{\n\tsink_ptr(&a[0]);\n}}"), &[530, 500, 512]),
+			// whole arrays and structures copied into a literal, after / before
+			// other members (of which one is a call with arguments)
+			(format!("fn bad()\n{{\n\tvar a: [2]{t} = [1, 2];\n\tvar s = Outer {{ inner: Inner {{ v: 1, w: Wd {{ lo: 1, hi: 2 }} }}, items: a, n: 3 }};\n}}"), &[531]),
+			(format!("fn bad()\n{{\n\tvar a: [2]{t} = [1, 2];\n\tvar s = Outer {{ n: idt(3), inner: Inner {{ v: idt(1), w: Wd {{ lo: 1, hi: 2 }} }}, items: a }};\n}}"), &[531]),
+			(format!("fn bad()\n{{\n\tvar i = Inner {{ v: 1, w: Wd {{ lo: 1, hi: 2 }} }};\n\tvar s = Outer {{ inner: i, items: [1, 2], n: 3 }};\n}}"), &[533]),
+			(format!("fn bad()\n{{\n\tvar i = Inner {{ v: 1, w: Wd {{ lo: 1, hi: 2 }} }};\n\tvar s = Outer {{ n: idt(3), inner: i, items: [1, 2] }};\n}}"), &[533]),
+			(format!("fn bad()\n{{\n\tvar a: [2]{t} = [1, 2];\n\tvar m: [2][2]{t} = [[idt(1), 2], a];\n}}"), &[531]),
 		];
 		let (bad, codes) = c.pick(&kinds).clone();
 		// the same shape must be fine when done through a pointer / with `&`
@@ -348,7 +359,7 @@ impl Check for C08
 	}
 	fn rule(&self) -> String
 	{
-		"(a) generated call-heavy programs (functions with value, word-by-value, array-view, struct-view, slice-pointer, pointer, pointer-to-struct and pointer-to-pointer parameters; callees read, write through reference chains and forward parameters to other callees; the final state of every visible primitive is printed), compiled, run and compared with the reference interpreter, in which views and by-value parameters are immutable and only `&` arguments alias caller storage; (b) 26 illegal shapes (writes through value / view / word / constant in 1-3 reference steps, `&` of an immutable parameter or constant, whole-array / view / struct copies by initialisation and assignment, pointer parameters given a bare variable / member) over 11 integer types, each next to a valid function doing the same through pointers; (c) a fixed control program per integer type with a hand-computed expected output. Oracle: (a) stdout and exit status equal the interpreter's, so caller variables change exactly where the call site wrote `&`; (b) rejected with E530 / E531 / E532 / E533 / E513; (c) exact output. Non-trivial (a): a call with an `&` argument and a callee that writes through or forwards a parameter; distinct by source.".into()
+		"(a) generated call-heavy programs (functions with value, word-by-value, array-view, struct-view, slice-pointer, pointer, pointer-to-struct and pointer-to-pointer parameters; callees read, write through reference chains and forward parameters to other callees; the final state of every visible primitive is printed), compiled, run and compared with the reference interpreter, in which views and by-value parameters are immutable and only `&` arguments alias caller storage; (b) 34 illegal shapes (writes through value / view / word / constant in 1-3 reference steps, `&` of an immutable parameter or constant, whole-array / view / struct copies by initialisation and assignment, pointer parameters given a bare variable / member, `&` of an array member of a structure view / of a constant array coerced to a slice pointer, whole arrays / structures copied into structure and array literals next to call members) over 11 integer types, each next to a valid function doing the same through pointers; (c) a fixed control program per integer type with a hand-computed expected output. Oracle: (a) stdout and exit status equal the interpreter's, so caller variables change exactly where the call site wrote `&`; (b) rejected with E530 / E531 / E532 / E533 / E513; (c) exact output. Non-trivial (a): a call with an `&` argument and a callee that writes through or forwards a parameter; distinct by source.".into()
 	}
 	fn assumptions(&self) -> Vec<String>
 	{
